@@ -888,11 +888,71 @@ def emit(prims, loops, failures, out_dir):
             P.append('theorem %s_ok %s %s :\n    %s = %s := by\n  %s %s%s' % (nm, binders, hyps, app, spec, tac, nm, tac_args(tac, e)))
             obligations.append(nm + '_ok')
         P.append('')
+    emit_table(elems, loops, out_dir)
     P.append('def obligations : List String := [')
     P.append(',\n'.join('  "%s"' % o for o in obligations))
     P.append(']')
     P.append('end PnVerif.Gen.NcxProofs')
     open(os.path.join(out_dir, 'NcxProofs.lean'), 'w').write('\n'.join(P) + '\n')
+
+
+def emit_table(elems, loops, out_dir):
+    T = []
+    T.append('/- GENERATED by tools/gen_ncx.py -- name-indexed dispatch over Gen/Ncx.lean for the C09 driver -/')
+    T.append('import PnVerif.Gen.Ncx')
+    T.append('import PnVerif.Spec.ConvSpec')
+    T.append('namespace PnVerif.Gen.NcxTable')
+    T.append('open PnVerif PnVerif.Gen')
+    T.append('inductive Val where | i (z : Int) | f (v : FV)')
+    T.append('def Val.toI : Val → Int | .i z => z | _ => 0')
+    T.append('def Val.toF : Val → FV | .f v => v | _ => .nan')
+    T.append('')
+    T.append('/-- (kind, C type of the input, C type of the output) -/')
+    T.append('def info (name : String) : Option (String × String × String) :=')
+    T.append('  match name with')
+    for e in elems:
+        T.append('  | "%s" => some ("%s", "%s", "%s")' % (e['nm'], e['kind'], e['in_ct'], e['out_ct']))
+    T.append('  | _ => none')
+    T.append('')
+
+    def conv_in(ct, x):
+        return '%s.toF' % x if ct in FLT_TYPES else '%s.toI' % x
+
+    def conv_out(ct):
+        return '.f' if ct in FLT_TYPES else '.i'
+    for which in ('model', 'spec'):
+        T.append('def %s (R : Rounding) (name : String) (fill : Option Val) (cur v : Val) : Option (Val × Int) :=' % which)
+        T.append('  match name with')
+        for e in elems:
+            nm = e['nm']
+            if which == 'model':
+                if e['kind'] == 'put':
+                    call = 'Ncx.%s R (fill.map Val.%s) (%s) (%s)' % (nm, 'toF' if e['out_ct'] in FLT_TYPES else 'toI',
+                                                                  conv_in(e['out_ct'], 'cur'), conv_in(e['in_ct'], 'v'))
+                else:
+                    call = 'Ncx.%s R (%s)' % (nm, conv_in(e['in_ct'], 'v'))
+            else:
+                if e['kind'] == 'put':
+                    if e['inline']:
+                        fillexpr = '((fill.map Val.%s).getD (%s))' % ('toF' if e['out_ct'] in FLT_TYPES else 'toI', conv_in(e['out_ct'], 'cur'))
+                    else:
+                        fillexpr = '((fill.map Val.%s).getD %s)' % ('toF' if e['out_ct'] in FLT_TYPES else 'toI', fill_const(e['out_ct'], EXT_FILL[e['X']]))
+                else:
+                    fillexpr = fill_const(e['out_ct'], MEM_FILL[e['T']])
+                call = spec_term(e['kind'], e['X'], e['T'], e['in_ct'], e['out_ct'], fillexpr).replace(' v', ' (%s)' % conv_in(e['in_ct'], 'v'))
+            T.append('  | "%s" => let r := %s; some (%s r.1, r.2)' % (nm, call, conv_out(e['out_ct'])))
+        T.append('  | _ => none')
+        T.append('')
+    T.append('/-- loop name ↦ (shape, element function name, external C type, memory C type) -/')
+    T.append('def loopInfo (name : String) : Option (String × String × String × String) :=')
+    T.append('  match name with')
+    for l in loops:
+        ln = lean_name(l['name'])
+        elem = ln + '_elem' if l['shape'] == 'inline' else ('%s_NC_%s_%s' % (l['kind'], l['X'], l['T']) if l['shape'] == 'firstErr' else '')
+        T.append('  | "%s" => some ("%s", "%s", "%s", "%s")' % (ln, l['shape'], elem, EXT2CT[l['X']], l['T']))
+    T.append('  | _ => none')
+    T.append('end PnVerif.Gen.NcxTable')
+    open(os.path.join(out_dir, 'NcxTable.lean'), 'w').write('\n'.join(T) + '\n')
 
 
 if __name__ == '__main__':
